@@ -7,6 +7,10 @@ TRANSPARENT = {"ExprWithCleanups", "MaterializeTemporaryExpr", "CXXBindTemporary
 LOG_CALLS = {"_xbt_log_event_log", "_xbt_log_cat_init"}
 ABORT_CALLS = {"xbt_abort", "abort"}
 DROP_CALLS = {"xbt_backtrace_display_current"}
+# wrappers W(closure, ...) whose meaning for the calling actor is "run the closure once, now, and return its result"
+# (simcall_answered: the kernel runs the closure in maestro context while the caller is blocked). The closure is lifted
+# into a C function and called in place; the assumption is reported in gen.json "dropped".
+SYNC_WRAPPERS = {"simcall_answered"}
 ARITH_CASTS = {"IntegralCast", "FloatingToIntegral", "IntegralToFloating", "FloatingCast", "IntegralToBoolean",
                "FloatingToBoolean", "PointerToBoolean", "BooleanToSignedIntegral", "PointerToIntegral",
                "IntegralToPointer"}
@@ -59,10 +63,14 @@ class Emitter:
         self.protos = {}  # cname -> (ret, [param ctypes], source type string)
         self.globals = {}  # cname -> ctype
         self.enum_consts = {}  # C name -> (enum type, const name)
-        self.lifted = []  # extra function texts (lambdas)
+        self.lifted = []  # extra function texts (lambdas, per-call-site models of std algorithms)
+        self.lifted_units = []  # their descriptions {cname, of, kind, loops}
+        self.upcasts = set()  # (derived tag, base tag) pointer conversions emitted as plain casts
         self.unit = None
         self.refvars = [set()]
         self.renames = self.cfg.get("rename", {})
+        self.const_types = {}  # const_globals name -> C type
+        self.truncated = []  # units cut at a stop_at_call statement
         self.lib = libmap
         self.dropped = []
         self.callees = {}  # cname -> description
@@ -120,6 +128,14 @@ class Emitter:
     # ---------------------------------------------------------------- naming
     def fn_cname(self, cls, name, typestr=None):
         base = (cls + "__" if cls else "") + self.op_name(name)
+        if name == "ctor" and cls and typestr:
+            # copy / move constructors get their own C names (overloads of the constructor of one class)
+            m = re.match(r"void \((const )?([\w:]+) ?(&&?)\)", typestr)
+            if m and m.group(2).split("::")[-1] == cls:
+                if m.group(3) == "&&":
+                    base += "_move"
+                elif m.group(1):
+                    base += "_copy"
         key = base + "|" + (typestr or "")
         if key in self.renames:
             return self.renames[key]
@@ -282,10 +298,19 @@ class Emitter:
         if kind == "EnumConstantDecl":
             et = (rd.get("type") or {}).get("qualType", "")
             cn = ident(et.split("::")[-1]) + "__" + name if et and not et.startswith("(") else name
+            if et in self.cfg.get("enum_rename", {}):
+                # "enum_rename": {qualified enum type: C prefix} keeps apart two enums with the same last name
+                cn = self.cfg["enum_rename"][et] + "__" + name
+            elif self.enum_consts.get(cn, (et, name)) != (et, name):
+                # same-named constant of two enums with the same last name (e.g. Action::State / activity::State)
+                cn = ident("_".join(et.split("::")[-2:])) + "__" + name
             self.enum_consts[cn] = (et, name)
             return cn
         if kind in ("ParmVarDecl", "VarDecl", "BindingDecl"):
             rt = (rd.get("type") or {}).get("qualType", "")
+            if kind == "VarDecl" and rt.replace("const ", "") in ("std::strong_ordering", "strong_ordering") and \
+                    name in ("less", "equal", "equivalent", "greater"):
+                return {"less": "(-1)", "equal": "0", "equivalent": "0", "greater": "1"}[name]
             if kind == "VarDecl" and rd["id"] not in self.locals and not self.is_local_name(name):
                 # global / static member variable
                 cn = self.global_name(n, rd)
@@ -295,7 +320,16 @@ class Emitter:
                 return "(*%s)" % cname
             return cname
         if kind in ("FunctionDecl", "CXXMethodDecl"):
-            return self.fn_cname(None, name, (rd.get("type") or {}).get("qualType"))
+            fnt = (rd.get("type") or {}).get("qualType")
+            cname = self.fn_cname(None, name, fnt)
+            if cname == self.op_name(name) and kind == "CXXMethodDecl":
+                # address of a static member function: named like the configured unit `...::Class::name`, as calls are
+                cands = [u for u in self.cfg.get("units", [])
+                         if len(u["name"].split("::")) >= 2 and u["name"].split("::")[-1] == name]
+                if len(cands) == 1:
+                    cname = cands[0].get("cname") or \
+                        self.fn_cname(self.tm.struct_tag(cands[0]["name"].split("::")[-2]), name, fnt)
+            return cname
         if kind == "FieldDecl":
             # captured field inside a lambda body
             return "self->" + name
@@ -309,9 +343,20 @@ class Emitter:
 
     def global_name(self, n, rd):
         name = rd["name"]
+        # same member name in two classes (Aid::INVALID_VALUE / Clock::INVALID_VALUE): a config key "<Class>::<name>"
+        # (class of the unit that mentions it) or "<name>|<c type>" takes precedence over the bare name
+        rtype = (rd.get("type") or {}).get("desugaredQualType") or (rd.get("type") or {}).get("qualType", "")
+        for qn in ("%s::%s" % (self.unit.cls, name), "%s|%s" % (name, rtype.replace("const ", ""))):
+            if qn in self.cfg.get("const_globals", {}) or qn in self.cfg.get("globals", {}):
+                name = qn
+                break
         if name in self.cfg.get("const_globals", {}):
             # compile-time constant of the real code: evaluated by the real compiler (cxx2c.eval_constants)
             self.const_needed.add(name)
+            try:  # keep the constant's own type (an `unsigned` flag must not become a signed int literal)
+                self.const_types[name] = self.ctype((rd.get("type") or {}).get("desugaredQualType") or rd["type"]["qualType"])
+            except Unsupported:
+                pass
             return "VFC_" + ident(name)
         gmap = self.cfg.get("globals", {})
         cn = gmap.get(name, ident(name))
@@ -377,9 +422,10 @@ class Emitter:
         if ck == "BitCast":
             return "((%s)%s)" % (self.ctype(n), self.paren(self.E(inner)))
         if ck in ("DerivedToBase", "UncheckedDerivedToBase"):
-            a, b = self.try_ctype(n), self.try_ctype(inner)
-            if a is not None and a == b and a.startswith("struct vf_"):
-                return self.E(inner)  # implementation base of a modelled library class: same model type
+            sct, dct = self.try_ctype(inner), self.try_ctype(n)
+            if sct is not None and sct == dct and (not sct.startswith("struct ") or sct.endswith("*") or
+                                                   sct.startswith("struct vf_")):
+                return self.E(inner)  # library class and its base mapped to the same scalar / same model type
             return self.derived_to_base(n, inner)
         if ck == "BaseToDerived":
             return self.base_to_derived(n, inner)
@@ -394,6 +440,9 @@ class Emitter:
         path = self.cast_path(n, dtag)
         if not path:
             raise Unsupported("derived-to-base cast without path")
+        dct = self.try_ctype(n)
+        if len(path) == 1 and dct and dct.rstrip("*").startswith("struct vf_"):
+            path = [dct.rstrip("*")[len("struct "):]]  # class deriving from a modelled std container: base = the model
         e = self.paren(self.E(inner))
         cur = dtag
         acc = (e + "->") if is_ptr else (e + ".")
@@ -494,6 +543,9 @@ class Emitter:
             return "vf_log_enabled"
         if op == "=" and self.try_ctype(a) and self.try_ctype(a).startswith("struct vf_str"):
             pass
+        if op == "<=>":
+            # three-way comparison of builtin operands: std::strong_ordering is mapped to int (-1, 0, 1)
+            return "VF_CMP3(%s, %s)" % (self.E(a), self.E(b))
         return "%s %s %s" % (self.paren(self.E(a)), op, self.paren(self.E(b)))
 
     e_CompoundAssignOperator = e_BinaryOperator
@@ -520,6 +572,16 @@ class Emitter:
 
     def e_ConditionalOperator(self, n):
         c, a, b = n["inner"]
+        ta, tb = skip(a).get("kind") == "CXXThrowExpr", skip(b).get("kind") == "CXXThrowExpr"
+        if ta != tb:
+            # `cond ? value : throw X(..)` (or the mirror image): the throw becomes a statement before the one that
+            # holds the expression; only where the conditional is evaluated unconditionally (no enclosing ?: && ||)
+            if getattr(self, "lazy_depth", 0) > 1:
+                raise Unsupported("conditional throw under ?: && ||")
+            ce = self.paren(self.E(c))
+            thr = self.s_CXXThrowExpr(skip(a if ta else b), "")[0]
+            self.pre.append("if (%s%s) %s" % ("" if ta else "!", ce, thr))
+            return self.E(b if ta else a)
         # Plain form when both arms are pure expressions. When an arm needs statements of its own (a temporary built by
         # a constructor, `throw X(..)` as an arm), the ?: becomes `T t; if (c) { ..; t = a; } else { ..; t = b; }` hoisted
         # before the enclosing statement; only when this ?: is not itself evaluated conditionally.
@@ -560,6 +622,10 @@ class Emitter:
         return "%s[%s]" % (self.paren(self.E(a)), self.E(b))
 
     def e_InitListExpr(self, n):
+        tq = n.get("type") or {}
+        if (tq.get("desugaredQualType") or tq.get("qualType") or "").rstrip().endswith("]"):
+            # initializer of a C array member (e.g. the `{{a, b, c}}` of a std::array): nested brace list
+            return "{%s}" % ", ".join(self.E(c) for c in n.get("inner", []))
         ct = self.ctype(n)
         items = [self.E(c) for c in n.get("inner", [])]
         if ct.startswith("struct vf_pair_") or ct.startswith("struct "):
@@ -654,6 +720,10 @@ class Emitter:
                 tmp = self.new_tmp(ct, self.E(inner))
                 return "&" + tmp
             core = core["inner"][0]
+        if core.get("kind") == "ConditionalOperator" and core.get("valueCategory") == "lvalue":
+            # C has no lvalue conditional: &(c ? a : b) -> (c ? &a : &b)
+            c, a, b = core["inner"]
+            return "(%s ? %s : %s)" % (self.paren(self.E(c)), self.addr_of(a), self.addr_of(b))
         e = self.E(core)
         if core.get("valueCategory") == "prvalue":
             tmp = self.new_tmp(self.ctype(core), e)
@@ -693,6 +763,9 @@ class Emitter:
             rd = c["referencedDecl"]
             name = rd["name"]
             fnt = (rd.get("type") or {}).get("qualType")
+            if name in self.cfg.get("sync_wrappers", SYNC_WRAPPERS) and args and \
+                    skip(args[0]).get("kind") == "LambdaExpr":
+                return self.call_lambda_now(skip(args[0]), n, name)
             r = self.lib.free_call(self, n, name, args, fnt) if self.lib else None
             if r is not None:
                 return r
@@ -701,7 +774,16 @@ class Emitter:
             if name in DROP_CALLS:
                 self.dropped.append(name)
                 return "((void)0)"
+            # plain call of a CXXMethodDecl = static member function. clang's JSON gives no qualifier for the callee, so the
+            # class is only known when the callee is itself a configured unit `...::Class::name`: then it is named like
+            # that unit (Class__name); any other static callee keeps its bare name, as before.
             cname = self.fn_cname(None, name, fnt)
+            if cname == self.op_name(name) and rd.get("kind") == "CXXMethodDecl":  # no explicit rename applies
+                cands = [u for u in self.cfg.get("units", [])
+                         if len(u["name"].split("::")) >= 2 and u["name"].split("::")[-1] == name]
+                if len(cands) == 1:  # unambiguous: named like that unit
+                    cname = cands[0].get("cname") or \
+                        self.fn_cname(self.tm.struct_tag(cands[0]["name"].split("::")[-2]), name, fnt)
             params = self.fn_params_from(fnt)
             a = self.call_args(args, params)
             ret, isref = self.ret_ctype_from(fnt)
@@ -777,7 +859,7 @@ class Emitter:
         ret = self.ctype(n)
         if isref:
             ret += "*"
-        cname = self.fn_cname(tag, name, None)
+        cname = self.fn_cname(tag, name, ",".join(pcs))  # overloads: rename key "Class__m|<inferred C param types>"
         # member function templates (clang prints no template arguments at the call): config
         # template_methods {"Class__method": "arg<i>" | "ret"} names the instantiation after the C type of that
         # argument / of the result, e.g. Channel::pack<int>(v) -> Channel__pack__int, unpack<bool>() -> Channel__unpack__bool
@@ -822,35 +904,83 @@ class Emitter:
         r = self.lib.construct(self, n) if self.lib else None
         if r is not None:
             return r
-        # temporary of a plain (SimGrid) class built by a user constructor: `struct X __t; X__ctor(&__t, args);`
-        # hoisted before the statement (the constructor is a unit or a callee under contract); not under ?: && ||
+        oc = self.cfg.get("opaque_ctor", {})
+        try:
+            octag = self.tm.class_tag_of(self.ptype(n))
+        except Unsupported:
+            octag = None
+        if octag in oc:
+            # config opaque_ctor {Class: [kept argument indices]}: the object is an opaque value made by an assumed callee
+            # Class__make(kept arguments); the other constructor arguments are not modelled.
+            args = [a for a in n.get("inner", [])]
+            pcs, avs = [], []
+            for i in oc[octag]:
+                r2 = self.infer_arg(args[i])
+                pcs.append(r2[0])
+                avs.append(r2[1])
+            cname = octag + "__make"
+            self.structs.setdefault(octag, {})
+            self.note_proto(cname, "struct " + octag, pcs, "opaque constructor of %s (arguments %s kept)" % (octag, oc[octag]))
+            self.callees.setdefault(cname, "%s::%s (opaque)" % (octag, octag))
+            self.callflag = True
+            return "%s(%s)" % (cname, ", ".join(avs))
+        r = self.class_construct(n, None)
+        if r is not None:
+            return r
+        raise Unsupported("constructor of %s (%s)" % (qt(n), n.get("ctorType", {}).get("qualType")))
+
+    def class_construct(self, n, target):
+        """object of a (SimGrid) class built by one of its constructors: a temporary (or `target`, the name of a declared
+        variable) initialised by a call to the constructor, which is a unit or a callee like any other function
+        (defaulted copy/move constructors have bodies in clang's AST: they are extracted, not assumed)."""
         ct = self.try_ctype(n)
         fnt = n.get("ctorType", {}).get("qualType")
-        if ct and fnt and ct.startswith("struct ") and not ct.startswith("struct vf_") and not ct.endswith("*") and \
-                getattr(self, "lazy_depth", 0) == 0:
-            tag = ct[len("struct "):]
-            cn = self.fn_cname(tag, "ctor", fnt)
-            fps = self.fn_params_from(fnt)
-            args = []
-            for i, a in enumerate(n.get("inner", [])):
-                if a.get("kind") == "CXXDefaultArgExpr" and not a.get("inner"):
-                    d = self.cfg.get("default_args", {}).get(cn, {}).get(str(i))
-                    if d is None:
-                        raise Unsupported("default argument %d in call to %s (add default_args[%s] to the config)" %
-                                          (i, cn, cn))
-                    args.append(d[1])
-                else:
-                    args.append(self.arg(a, fps[i] if fps and i < len(fps) else None))
-            self.note_proto(cn, "void", ["struct %s*" % tag] + self.param_ctypes_from(fnt), "ctor %s %s" % (tag, fnt))
-            self.callees.setdefault(cn, "%s::%s %s" % (qt(n), tag, fnt))
-            self.structs.setdefault(tag, {})
+        if ct is None or not fnt or not ct.startswith("struct ") or ct.endswith("*") or ct.startswith("struct vf_"):
+            return None
+        tag = ct[len("struct "):]
+        args = [a for a in n.get("inner", [])]
+        if n.get("elidable") and len(args) == 1 and args[0].get("valueCategory") == "prvalue" and \
+                self.try_ctype(args[0]) == ct:
+            return self.E(args[0])  # copy elision of a prvalue (guaranteed since C++17)
+        self.structs.setdefault(tag, {})
+        cn = self.fn_cname(tag, "ctor", fnt)
+        params = self.fn_params_from(fnt)
+        self.note_proto(cn, "void", ["struct %s*" % tag] + self.param_ctypes_from(fnt), "ctor %s %s" % (tag, fnt))
+        self.callees.setdefault(cn, "%s::%s %s" % (tag, tag, fnt))
+        if target is None and getattr(self, "lazy_depth", 0) > 0:
+            # under ?: && || the temporary must be built where the expression is evaluated (not hoisted before the
+            # statement): GNU statement expression; the exception test is the one after the whole statement
+            pre, avs = self.with_pre(lambda: self.call_args(self.with_cfg_defaults(cn, args), params))
+            self.callflag = True
             self.unit.tmp += 1
-            tmp = "__t%d" % self.unit.tmp
-            self.pre.append("%s %s;" % (ct, tmp))
-            self.pre.append("%s(%s);" % (cn, ", ".join(["&" + tmp] + args)))
+            t = "__t%d" % self.unit.tmp
+            return "({ %s %s; %s %s(%s); %s; })" % (ct, t, " ".join(pre), cn, ", ".join(["&" + t] + avs), t)
+        avs = self.call_args(self.with_cfg_defaults(cn, args), params)
+        self.callflag = True
+        if target is None:
+            self.unit.tmp += 1
+            target = "__t%d" % self.unit.tmp
+            self.pre.append("%s %s;" % (ct, target))
+        self.pre.append("%s(%s);" % (cn, ", ".join(["&" + target] + avs)))
+        if self.cfg.get("exceptions", True):
             self.pre.append("if (vf_exc) " + self.ret_zero())
-            return tmp
-        raise Unsupported("constructor of %s (%s)" % (qt(n), n.get("ctorType", {}).get("qualType")))
+        return target
+
+    def with_cfg_defaults(self, cn, args):
+        """default arguments clang does not print (CXXDefaultArgExpr without expression) are taken from the config:
+        default_args {<callee C name>: {<index>: [ctype, C expression]}} -> a literal node the emitter prints as is"""
+        out = []
+        for i, a in enumerate(args):
+            if a.get("kind") == "CXXDefaultArgExpr" and not a.get("inner"):
+                d = self.cfg.get("default_args", {}).get(cn, {}).get(str(i))
+                if d is None:
+                    raise Unsupported("default argument %d in call to %s (add default_args[%s] to the config)" % (i, cn, cn))
+                a = {"kind": "VfLiteral", "text": d[1], "valueCategory": "prvalue"}
+            out.append(a)
+        return out
+
+    def e_VfLiteral(self, n):
+        return n["text"]
 
     e_CXXTemporaryObjectExpr = e_CXXConstructExpr
 
@@ -859,6 +989,282 @@ class Emitter:
         if r is not None:
             return r
         raise Unsupported("lambda in this position")
+
+    def lift_lambda_fn(self, n):
+        """captureless lambda -> static C function <unit>__lambda<k> (its operator() body, translated like any
+        function); returns the C name. Lambdas with captures are outside the subset."""
+        rec = next((c for c in n.get("inner", []) if c.get("kind") == "CXXRecordDecl"), None)
+        if rec is None or any(c.get("kind") == "FieldDecl" for c in rec.get("inner", [])):
+            raise Unsupported("lambda with captures")
+        op = next((c for c in rec.get("inner", []) if c.get("kind") == "CXXMethodDecl" and c.get("name") == "operator()"),
+                  None)
+        if op is None or not any(c.get("kind") == "CompoundStmt" for c in op.get("inner", [])):
+            raise Unsupported("lambda without a plain operator() body (generic lambda?)")
+        self.lambda_count = getattr(self, "lambda_count", 0) + 1
+        cname = "%s__lambda%d" % (self.unit.cname, self.lambda_count)
+        keep = ("unit", "unit_ret", "unit_ret_isref", "locals", "local_names", "ref_ids", "used_local_names", "pre",
+                "cn", "callflag", "stop_at_call")
+        saved = {k: getattr(self, k, None) for k in keep}
+        self.stop_at_call = None
+        try:
+            sig, text, unit = self.emit_function(op, cname, None, True)
+        finally:
+            for k, v in saved.items():
+                setattr(self, k, v)
+        self.lifted.append(text)
+        self.unit_names.add(cname)
+        return cname
+
+    # ---- lambda lifting: closure -> lifted C function `ret f(void* __env, params)` + capture struct; the closure
+    #      value is a struct vf_fn {fn, env} (same representation as a modelled std::function)
+    UNIT_STATE = ("unit", "unit_ret", "unit_ret_isref", "locals", "local_names", "ref_ids", "used_local_names", "pre",
+                  "cn", "callflag")
+
+    @staticmethod
+    def lambda_call_op(rec):
+        """the operator() definition of a closure class (for a generic lambda: its last concrete instantiation)"""
+        def has_body(m):
+            return any(c.get("kind") == "CompoundStmt" for c in m.get("inner", []))
+        for c in rec.get("inner", []):
+            if c.get("kind") == "CXXMethodDecl" and c.get("name") == "operator()" and has_body(c):
+                return c
+        for c in rec.get("inner", []):
+            if c.get("kind") == "FunctionTemplateDecl" and c.get("name") == "operator()":
+                ms = [m for m in c.get("inner", []) if m.get("kind") == "CXXMethodDecl" and has_body(m) and
+                      not re.search(r"\bauto\b", m.get("type", {}).get("qualType", ""))]
+                if len(ms) == 1:
+                    return ms[0]
+                raise Unsupported("generic lambda with %d instantiations" % len(ms))
+        raise Unsupported("lambda without operator() body")
+
+    @staticmethod
+    def captured_entity(init):
+        """what a capture initialiser designates: ('this', None) or ('var', referencedDecl)"""
+        core = init
+        while True:
+            core = skip(core)
+            k = core.get("kind")
+            if k == "CXXConstructExpr" and len(core.get("inner", [])) == 1:
+                core = core["inner"][0]  # by-copy capture of a class-typed variable: copy constructor
+                continue
+            if k == "CXXThisExpr":
+                return "this", None
+            if k == "DeclRefExpr" and core["referencedDecl"].get("kind") in ("ParmVarDecl", "VarDecl"):
+                return "var", core["referencedDecl"]
+            raise Unsupported("lambda capture initialised by %s (init-capture / *this are outside the subset)" % k)
+
+    def lift_lambda(self, n, heap=False):
+        """LambdaExpr -> expression of type struct vf_fn. The body becomes the function <unit>__lambda<k>(void* __env,
+        params...) (emitted before the units, prototype in gen.h, so a spec may give it a contract); captures travel in
+        struct <unit>__lambda<k>_env: by-reference captures as pointers, by-copy captures as values, `this` as `self`.
+        heap=True (closure stored in a std::function slot, may outlive the block): the capture struct is malloc'ed."""
+        inner = n.get("inner", [])
+        if not inner or inner[0].get("kind") != "CXXRecordDecl":
+            raise Unsupported("lambda without closure class")
+        rec = inner[0]
+        op = self.lambda_call_op(rec)
+        fields = [c for c in rec.get("inner", []) if c.get("kind") == "FieldDecl"]
+        inits = [c for c in inner[1:] if c.get("kind") != "CompoundStmt"]
+        if len(fields) != len(inits):
+            raise Unsupported("lambda: %d capture fields but %d initialisers" % (len(fields), len(inits)))
+        outer = self.unit
+        k = getattr(outer, "lambdas", 0)
+        outer.lambdas = k + 1
+        cname = "%s__lambda%d" % (outer.cname, k)
+        envtag = cname + "_env"
+        caps, vals = [], []  # (field name, field ctype, by_ref, referenced decl or None), initialiser C expressions
+        for f, init in zip(fields, inits):
+            what, rd = self.captured_entity(init)
+            ft = parse(qt(f))
+            if what == "this":
+                caps.append(("self", self.tm.c(ft), False, None))
+                vals.append("self")
+                continue
+            by_ref = ft.kind in ("ref", "rref")
+            fct = self.tm.c(ft.to) + "*" if by_ref else self.tm.c(ft)
+            fname = ident(rd.get("name") or "cap%d" % len(caps))
+            caps.append((fname, fct, by_ref, rd))
+            vals.append(self.addr_of(init) if by_ref else self.E(init))
+        optype = op.get("type", {}).get("qualType", "")
+        if any(not c[2] and c[3] is not None for c in caps) and not re.search(r"\)\s*const\b", optype):
+            raise Unsupported("mutable lambda with by-copy captures")
+        for fname, fct, _, _ in caps:
+            self.field(envtag, fname, fct)
+
+        def prologue():
+            if not caps:
+                return []
+            out = ["struct %s* __cap = (struct %s*)__env;" % (envtag, envtag)]
+            for fname, fct, by_ref, rd in caps:
+                if rd is None:
+                    out.append("%s self = __cap->self;" % fct)
+                    continue
+                name = self.decl_local({"id": rd["id"], "name": rd.get("name")}, by_ref)
+                out.append("%s %s = __cap->%s;" % (fct, name, fname))
+            return out
+
+        saved = {a: getattr(self, a) for a in self.UNIT_STATE}
+        try:
+            sig, text, unit = self.emit_function(op, cname, None, env_prologue=prologue)
+        finally:
+            for a, v in saved.items():
+                setattr(self, a, v)
+        macros = "".join("#ifndef VF_LOOP_%s_%d\n#define VF_LOOP_%s_%d\n#endif\n" % (cname, j, cname, j)
+                         for j in range(unit.loops))
+        self.lifted.append("%s/* ---- lambda %d of %s ---- */\n%s" % (macros, k, outer.cname, text))
+        self.unit_names.add(cname)
+        self.lifted_units.append({"cname": cname, "of": outer.cname, "kind": "lambda", "loops": unit.loops})
+        self.callflag = True  # the body may run (now or later) and raise
+        fn = "(vf_fnptr)%s" % cname
+        if not caps:
+            return "((struct vf_fn){%s, 0})" % fn
+        if heap:
+            self.unit.tmp += 1
+            tmp = "__t%d" % self.unit.tmp
+            self.pre.append("struct %s* %s = (struct %s*)malloc(sizeof(struct %s));" % (envtag, tmp, envtag, envtag))
+            self.pre.append("__CPROVER_assume(%s != 0);" % tmp)
+            self.pre.append("*%s = (struct %s){%s};" % (tmp, envtag, ", ".join(vals)))
+            return "((struct vf_fn){%s, %s})" % (fn, tmp)
+        tmp = self.new_tmp("struct " + envtag, "{%s}" % ", ".join(vals))
+        return "((struct vf_fn){%s, &%s})" % (fn, tmp)
+
+    def fn_elem_call(self, f, pct, ect, ret):
+        """C expression calling the vf_fn value `f` on the sequence element b[i] (parameter ctype pct, element ctype ect)"""
+        if pct == ect:
+            a = "b[i]"
+        elif pct == ect + "*":
+            a = "&b[i]"
+        else:
+            raise Unsupported("callable takes %s but the elements are %s" % (pct, ect))
+        return "((%s (*)(void*, %s))%s.fn)(%s.env, %s)" % (ret, pct, f, f, a)
+
+    ALGO_BODIES = {
+        # name -> (return ctype or None = element pointer, body template); CALL = predicate on b[i]; loop ordinal 0
+        "find_if": (None, "  for (; i < cnt; i++)\n    LOOP\n  {\n    if (CALL) break;\n    EXC\n  }\n  return b + i;\n"),
+        "find_if_not": (None, "  for (; i < cnt; i++)\n    LOOP\n  {\n    if (!CALL) break;\n    EXC\n  }\n  return b + i;\n"),
+        "any_of": ("_Bool", "  for (; i < cnt; i++)\n    LOOP\n  {\n    if (CALL) break;\n    EXC\n  }\n  return i < cnt;\n"),
+        "none_of": ("_Bool", "  for (; i < cnt; i++)\n    LOOP\n  {\n    if (CALL) break;\n    EXC\n  }\n  return !(i < cnt);\n"),
+        "all_of": ("_Bool", "  for (; i < cnt; i++)\n    LOOP\n  {\n    if (!CALL) break;\n    EXC\n  }\n  return !(i < cnt);\n"),
+        "count_if": ("long", "  long c = 0;\n  for (; i < cnt; i++)\n    LOOP\n  {\n    if (CALL) c++;\n    EXC\n  }\n  return c;\n"),
+        "for_each": ("struct vf_fn", "  for (; i < cnt; i++)\n    LOOP\n  {\n    CALL;\n    EXC\n  }\n  return f;\n"),
+        "remove_if": (None, "  size_t w = 0;\n  for (; i < cnt; i++)\n    LOOP\n  {\n    _Bool r = CALL;\n    EXC\n"
+                            "    if (!r) { b[w] = b[i]; w++; }\n  }\n  return b + w;\n"),
+    }
+
+    def algo_call(self, n, name, args):
+        """std::<name>(first, last, callable) over a modelled sequence -> call of a per-call-site model function
+        <unit>__<name><k>(T* b, T* e, struct vf_fn f) whose loop is VF_LOOP_<unit>__<name><k>_0 (the spec supplies the
+        loop contract: only the spec knows the predicate). The callable is called through the struct vf_fn."""
+        ret0, tmpl = self.ALGO_BODIES[name]
+        ct = self.try_ctype(args[0])
+        if ct is None or not ct.endswith("*") or self.try_ctype(args[1]) != ct:
+            return None
+        ect = ct[:-1]
+        core = skip(args[2])
+        while core.get("kind") == "CXXConstructExpr" and len(core.get("inner", [])) == 1:
+            core = skip(core["inner"][0])  # copy/move of the closure into the by-value parameter
+        b, e = self.E(args[0]), self.E(args[1])
+        if core.get("kind") == "LambdaExpr":
+            fv = self.lift_lambda(core)
+            lam = self.lifted_units[-1]["cname"]
+            pcs = self.protos[lam][1]
+            if len(pcs) != 2:
+                raise Unsupported("std::%s with a callable of %d parameters" % (name, len(pcs) - 1))
+            pct, pret = pcs[1], self.protos[lam][0]
+        elif self.try_ctype(args[2]) == "struct vf_fn":
+            fv = self.E(args[2])
+            pct = ect if (not ect.startswith("struct ") or ect.endswith("*")) else ect + "*"
+            pret = "void" if name == "for_each" else "_Bool"
+        else:
+            return None
+        outer = self.unit
+        k = getattr(outer, "algos", 0)
+        outer.algos = k + 1
+        cname = "%s__%s%d" % (outer.cname, name, k)
+        ret = ret0 or ct
+        call = self.fn_elem_call("f", pct, ect, pret)
+        exc = "if (vf_exc) break;" if self.cfg.get("exceptions", True) else ";"
+        subst = {"LOOP": "VF_LOOP_%s_0" % cname, "CALL": call, "EXC": exc}
+        body = re.sub(r"\b(LOOP|CALL|EXC)\b", lambda m: subst[m.group(1)], tmpl)
+        text = ("#ifndef VF_LOOP_%s_0\n#define VF_LOOP_%s_0\n#endif\n/* ---- model of std::%s, call %d in %s ---- */\n"
+                "%s %s(%s b, %s e, struct vf_fn f)\n{\n  size_t cnt = (size_t)(e - b);\n  size_t i = 0;\n%s}\n" %
+                (cname, cname, name, k, outer.cname, ret, cname, ct, ct, body))
+        self.lifted.append(text)
+        self.note_proto(cname, ret, [ct, ct, "struct vf_fn"], "model of std::%s at its call site" % name)
+        self.unit_names.add(cname)
+        self.lifted_units.append({"cname": cname, "of": outer.cname, "kind": "std::" + name, "loops": 1})
+        self.callflag = True
+        return "%s(%s, %s, %s)" % (cname, b, e, fv)
+
+    def call_lambda_now(self, lam, call, wrapper):
+        """W(lambda) for a synchronous wrapper W: the closure body becomes the C function <unit>__lambda<k>; captures
+        become its parameters (this -> self, by-copy -> value, by-reference -> pointer); the call is emitted in place."""
+        rec = lam["inner"][0]
+        ops = [c for c in rec.get("inner", []) if c.get("kind") == "CXXMethodDecl" and c.get("name") == "operator()"]
+        fields = [c for c in rec.get("inner", []) if c.get("kind") == "FieldDecl"]
+        if len(ops) != 1:
+            raise Unsupported("generic lambda")
+        op = ops[0]
+        if any(c.get("kind") == "ParmVarDecl" for c in op.get("inner", [])):
+            raise Unsupported("lambda with parameters passed to %s" % wrapper)
+        body = [c for c in op.get("inner", []) if c.get("kind") == "CompoundStmt"]
+        caps = lam["inner"][1:1 + len(fields)]
+        if len(body) != 1 or len(caps) != len(fields):
+            raise Unsupported("lambda layout")
+        ret = self.ctype(call)
+        self.unit.lambdas = getattr(self.unit, "lambdas", 0) + 1
+        cname = "%s__lambda%d" % (self.unit.cname, self.unit.lambdas - 1)
+        params, ptypes, avs, binds = [], [], [], []
+        for f, cap in zip(fields, caps):
+            core = skip(cap)
+            ft = parse(qt(f))
+            if core.get("kind") == "CXXThisExpr":
+                tag = self.tm.class_tag_of(self.ptype(core))
+                params.append("struct %s* self" % tag)
+                ptypes.append("struct %s*" % tag)
+                avs.append("self")
+            elif core.get("kind") == "DeclRefExpr" and core["referencedDecl"].get("kind") in ("VarDecl", "ParmVarDecl"):
+                rd = core["referencedDecl"]
+                name = self.local_name(rd)
+                if "->" in name:
+                    raise Unsupported("capture of a structured binding")
+                if ft.kind in ("ref", "rref"):
+                    ct = self.tm.c(ft.to) + "*"
+                    avs.append(self.addr_of(core))
+                    binds.append((rd["id"], name, True))
+                else:
+                    ct = self.tm.c(ft)
+                    avs.append(self.E(cap))
+                    binds.append((rd["id"], name, False))
+                params.append("%s %s" % (ct, name))
+                ptypes.append(ct)
+            else:
+                raise Unsupported("lambda capture initialised by %s" % core.get("kind"))
+        saved = (self.unit, self.unit_ret, self.unit_ret_isref, self.locals, self.local_names, self.ref_ids,
+                 self.used_local_names, self.pre, self.cn, self.callflag)
+        unit = Unit(cname, op, self.unit.cls, "lambda")
+        self.begin_unit(unit, ret, False)
+        for did, name, isref in binds:
+            self.locals.add(did)
+            self.local_names[did] = name
+            self.used_local_names[name] = did
+            if isref:
+                self.ref_ids.add(did)
+        blines = self.s_CompoundStmt(body[0], "")
+        (self.unit, self.unit_ret, self.unit_ret_isref, self.locals, self.local_names, self.ref_ids,
+         self.used_local_names, self.pre, self.cn, self.callflag) = saved
+        text = ""
+        for k in range(unit.loops):
+            m = "VF_LOOP_%s_%d" % (cname, k)
+            text += "#ifndef %s\n#define %s\n#endif\n" % (m, m)
+        text += "/* ---- closure passed to %s in %s ---- */\n" % (wrapper, self.unit.cname)
+        text += "%s %s(%s)\n%s\n" % (ret, cname, ", ".join(params) if params else "void", "\n".join(blines))
+        self.lifted.append(text)
+        self.note_proto(cname, ret, ptypes, "closure run by %s" % wrapper)
+        self.unit_names.add(cname)
+        self.dropped.append("%s(closure) = closure run once in place" % wrapper)
+        self.callflag = True
+        return "%s(%s)" % (cname, ", ".join(avs))
 
     def e_CXXStdInitializerListExpr(self, n):
         return self.E(n["inner"][0])
@@ -877,11 +1283,50 @@ class Emitter:
     # ---------------------------------------------------------------- statements
     def S(self, n, ind):
         k = n.get("kind")
+        stops = self.cfg.get("stop_at_call")
+        if stops and k not in ("CompoundStmt", "IfStmt", "ForStmt", "WhileStmt", "DoStmt", "SwitchStmt", "CXXForRangeStmt",
+                               "CXXTryStmt", "CaseStmt", "DefaultStmt", "LabelStmt"):
+            # config stop_at_call: the unit is translated only up to the first simple statement that calls one of the
+            # listed functions (e.g. the simcall that hands over to the kernel): that statement becomes a return. The
+            # contract of the unit then speaks about the prefix only; the truncation is recorded in gen.json.
+            def hit(x):
+                if x.get("kind") in ("CallExpr", "CXXMemberCallExpr"):
+                    c = skip(x["inner"][0]) if x.get("inner") else {}
+                    nm = (c.get("referencedDecl") or {}).get("name") or c.get("name")
+                    return nm in stops
+                return False
+            if contains(n, hit):
+                self.truncated.append(self.unit.cname)
+                return [ind + "/* vf: unit truncated here (stop_at_call) */", ind + self.ret_zero()]
         m = getattr(self, "s_" + k, None)
         if m is not None:
             return m(n, ind)
-        if k in TRANSPARENT and skip(n).get("kind") == "CXXThrowExpr":  # `throw X(..);` wrapped in ExprWithCleanups
-            return self.s_CXXThrowExpr(skip(n), ind)
+        core = n
+        while core.get("kind") in TRANSPARENT:
+            core = core["inner"][0]
+        if core.get("kind") == "CXXThrowExpr":  # `throw E(temporary);` is wrapped in ExprWithCleanups
+            return self.s_CXXThrowExpr(core, ind)
+        if core.get("kind") == "BinaryOperator" and core.get("opcode") == "=" and self.cfg.get("exceptions", True):
+            # `lhs = f(..);` where f may throw: in C++ the store does not happen when f throws. The value goes through
+            # a temporary and is stored only when no exception is in flight.
+            a, b = core["inner"]
+            rct = self.try_ctype(b)
+            if rct is not None and (not rct.startswith("struct ") or rct.endswith("*")) and rct != "void":
+                saved, self.pre = self.pre, []
+                flag0, self.callflag = self.callflag, False
+                rhs = self.E(b)
+                if self.callflag:
+                    lhs = self.E(a)
+                    pre, self.pre = self.pre, saved
+                    self.unit.tmp += 1
+                    tmp = "__v%d" % self.unit.tmp
+                    out = [ind + "{"] + [ind + "  " + p for p in pre]
+                    out.append("%s  %s %s = %s;" % (ind, rct, tmp, rhs))
+                    out += self.exc_check(n, ind + "  ")
+                    out.append("%s  %s = %s;" % (ind, self.paren(lhs), tmp))
+                    out.append(ind + "}")
+                    return out
+                self.pre, self.callflag = saved, flag0
         # expression statement
         saved = self.pre
         self.pre = []
@@ -946,7 +1391,8 @@ class Emitter:
             # (an `if` of the program that merely CONTAINS a log statement is NOT a log statement)
             return then.get("kind") == "CompoundStmt" and len(then.get("inner", [])) >= 1 and \
                 all(self.is_log_event_part(s) for s in then["inner"]) and \
-                any(skip(s).get("kind") == "CallExpr" for s in then["inner"])  # (call may sit in ExprWithCleanups)
+                any(s.get("kind") == "CallExpr" or (s.get("kind") in TRANSPARENT and self.is_log_event_part(s))
+                    for s in then["inner"])
         if k == "CompoundStmt":
             ss = n.get("inner", [])
             return len(ss) >= 1 and all(self.is_log_stmt(s) for s in ss)
@@ -980,7 +1426,10 @@ class Emitter:
             if self.is_log_stmt(s):
                 self.dropped.append("log")
                 continue
-            out += self.S(s, ind + "  ")
+            part = self.S(s, ind + "  ")
+            out += part
+            if part and part[0].strip() == "/* vf: unit truncated here (stop_at_call) */":
+                break  # the rest of this block is behind the truncation point
         self.pop_scope()
         out.append(ind + "}")
         return out
@@ -1066,6 +1515,18 @@ class Emitter:
         name = self.decl_local(d, False)
         if init is None:
             return ["%s%s %s;" % (ind, ct, name)]
+        core = init
+        while core.get("kind") in TRANSPARENT:
+            core = core["inner"][0]
+        if core.get("kind") in ("CXXConstructExpr", "CXXTemporaryObjectExpr") and self.try_ctype(core) == ct and \
+                ct.startswith("struct ") and not ct.startswith("struct vf_") and \
+                (self.lib is None or self.with_pre(lambda: self.lib.construct(self, core))[1] is None):
+            # T x(args);  — the constructor runs on the variable itself
+            pre, e = self.with_pre(lambda: self.class_construct(core, name))
+            if e == name:
+                return ["%s%s %s;" % (ind, ct, name)] + [ind + p for p in pre] + self.exc_check(init, ind)
+            if e is not None:
+                return [ind + p for p in pre] + ["%s%s %s = %s;" % (ind, ct, name, e)] + self.exc_check(init, ind)
         pre, e = self.with_pre(lambda: self.E(init))
         out = [ind + p for p in pre]
         out.append("%s%s %s = %s;" % (ind, ct, name, e))
@@ -1146,6 +1607,12 @@ class Emitter:
         c = inner.pop(0)
         then = inner.pop(0)
         els = inner.pop(0) if inner else None
+        core = skip(c)
+        if not opened and core.get("kind") == "CXXBoolLiteralExpr" and not core.get("value"):
+            # `if (false) { debug code }`: statically dead branch, only the else part (if any) is emitted
+            if els is None or self.is_log_stmt(els):
+                return []
+            return self.body(els, ind)
         pre, ce = self.with_pre(lambda: self.E(c))
         if pre and not opened:
             out.append(ind + "{")
@@ -1304,8 +1771,10 @@ class Emitter:
         self.cn = 0
         self.callflag = False
 
-    def emit_function(self, node, cname, cls_tag, static=False):
-        """node: FunctionDecl / CXXMethodDecl / CXXConstructorDecl with a body. Returns C text."""
+    def emit_function(self, node, cname, cls_tag, static=False, env_prologue=None):
+        """node: FunctionDecl / CXXMethodDecl / CXXConstructorDecl with a body. Returns C text.
+        env_prologue (lifted lambdas): callable run after begin_unit; the function then takes `void* __env` as its
+        first parameter instead of `self`, and the returned lines (capture unpacking) open its body."""
         self.learn_types(node)
         kind = node["kind"]
         fnt = node["type"]["qualType"]
@@ -1314,13 +1783,17 @@ class Emitter:
             ret, isref = "void", False
         else:
             ret, isref = self.ret_ctype_from(fnt)
-        unit = Unit(cname, node, cls_tag)
+        unit = Unit(cname, node, cls_tag, "lambda" if env_prologue else "func")
         self.begin_unit(unit, ret, isref)
         params = []
-        if cls_tag and not static:
+        if env_prologue:
+            params.append("void* __env")
+        elif cls_tag and not static:
             params.append("struct %s* self" % cls_tag)
             self.structs.setdefault(cls_tag, {})
         ptypes = ["struct %s*" % cls_tag] if (cls_tag and not static) else []
+        if env_prologue:
+            ptypes = ["void*"]
         body = None
         inits = []
         for c in node.get("inner", []):
@@ -1329,7 +1802,15 @@ class Emitter:
                 pt = parse(qt(c))
                 pct = self.param_ctype(pt)
                 isref_p = pt.kind in ("ref", "rref") and not self.by_value(pt)
-                name = self.decl_local(c, isref_p) if c.get("name") else "__unused%d" % len(params)
+                if c.get("name"):
+                    name = self.decl_local(c, isref_p)
+                else:
+                    # unnamed parameter (e.g. of a defaulted copy constructor, whose synthesized body does use it)
+                    name = "__unused%d" % len(params)
+                    self.local_names[c["id"]] = name
+                    self.locals.add(c["id"])
+                    if isref_p:
+                        self.ref_ids.add(c["id"])
                 params.append("%s %s" % (pct, name))
                 ptypes.append(pct)
             elif k == "CompoundStmt":
@@ -1340,9 +1821,33 @@ class Emitter:
             raise Unsupported("no body for %s" % cname)
         self.note_proto(cname, ret, ptypes, fnt if not cls_tag else "%s::%s %s" % (cls_tag, node.get("name"), fnt))
         lines = []
+        if env_prologue:
+            lines += ["  " + l for l in env_prologue()]
         for ci in inits:
             lines += self.ctor_init(ci, "  ")
+        stop = getattr(self, "stop_at_call", None)
+        self.stop_at_call = None  # applies to the unit itself only, not to lambdas lifted from its body
+        if stop:
+            # unit key "stop_at_call": the top-level statements from the first one that calls <stop> on are NOT
+            # translated; they are represented by one call to the callee <cname>__rest(self), whose (assumed) contract
+            # the spec must give and the evidence lists. Only for void methods.
+            def calls_stop(x):
+                k = x.get("kind")
+                if k == "MemberExpr" and x.get("name") == stop:
+                    return True
+                return k == "DeclRefExpr" and (x.get("referencedDecl") or {}).get("name") == stop
+            stmts = body.get("inner", [])
+            idx = next((i for i, s in enumerate(stmts) if contains(s, calls_stop)), None)
+            if idx is None or ret != "void" or not cls_tag or static:
+                raise Unsupported("stop_at_call %s: no such call at top level of a void method %s" % (stop, cname))
+            body = dict(body)
+            body["inner"] = stmts[:idx]
+            rest = cname + "__rest"
+            self.note_proto(rest, "void", ["struct %s*" % cls_tag], "statements of %s from the call of %s on" % (cname, stop))
+            self.callees[rest] = "untranslated tail of %s (from the first top-level statement calling %s)" % (cname, stop)
         blines = self.s_CompoundStmt(body, "")
+        if stop:
+            blines[-1:] = ["  %s(self);" % rest, "  if (vf_exc) return;", "}"]
         sig = "%s %s(%s)" % (ret, cname, ", ".join(params) if params else "void")
         text = sig + "\n"
         if lines:
